@@ -14,8 +14,10 @@ static unsigned g_start_calls, g_save_calls, g_set_calls, g_seq, g_start_at, g_p
 #include "lowered.c"
 #endif
 typedef struct JsonDeserializer_StubReader JD;
+#ifdef U_TOP
 typedef struct DeserializationOption__Filter Filter;
 typedef struct DeserializationOption__NestingLimit NL;
+#endif
 
 int StubReader__read(struct StubReader *self) {
   (void)self;
@@ -26,6 +28,7 @@ int StubReader__read(struct StubReader *self) {
   if (c <= 0) g_ended = 1;
   return c;
 }
+#ifdef U_TOP
 /* parseVariant by contract [jsondispatch/parseVariant_dispatch + callees]: Ok => SAFE; a number leaves its look-ahead byte in the latch */
 unsigned int JsonDeserializer_StubReader__parseVariant_DeserializationOption__Filter(JD *self, struct VariantData *v, Filter f, NL nl) {
   CHECK(SAFE(self), "parseVariant precondition: SAFE");
@@ -71,6 +74,9 @@ void h_parse(void) {
 #endif
 }
 
+#endif /* U_TOP */
+
+#ifdef U_PSV
 /* parseStringValue: startString, parseQuotedString, then save + setOwnedString only on Ok */
 static unsigned g_pq_err;
 void StringBuilder__startString(struct StringBuilder *self) { (void)self; g_start_calls++; g_start_at = ++g_seq; }
@@ -108,3 +114,4 @@ void h_parseStringValue(void) {
   CHECK(err != Ok, "canary: deliberately false for a reachable case");
 #endif
 }
+#endif /* U_PSV */
